@@ -212,7 +212,7 @@ def source_level_monotonicity(ctx: Ctx, n: int):
                 others = [m for m in mods if len(m) >= 2 and scan.dotted(m[:-1]) != prev[0][2]]
                 if others:
                     stmt = ("from", 0, scan.dotted(rng.choice(others)[:-1]), list(prev[0][3]))
-        files2 = {k: {"py": v["py"], "body": list(v["body"])} for k, v in files.items()}
+        files2 = {k: dict(v, body=list(v["body"])) for k, v in files.items()}
         files2[f]["body"].append(stmt)
         b1, b2 = scan.materialise(dirs, files), scan.materialise(dirs, files2)
         try:
